@@ -62,6 +62,7 @@ class Fault:
         self.fired = None    # event record of the injected fault
         self.exc = None
         self.on_fire = None
+        self.path_in_tmp = False    # True: only events whose first path lies in the private temp dir
 
 
 def realistic_fault(kind, paths):
@@ -175,7 +176,8 @@ class FsMonitor:
             return
         f = self.fault
         if f is not None and f.fired is None and kind in f.kinds and self.phase in f.phases \
-                and not relfd and (not f.realistic or rec.get('realistic', True)):
+                and not relfd and (not f.realistic or rec.get('realistic', True)) \
+                and (not f.path_in_tmp or (paths and (paths[0] + '/').startswith(self.tmp + '/'))):
             with self.lock:
                 f.count += 1
                 hit = f.count == f.k
